@@ -21,7 +21,8 @@ def optsOf (j : Json) : Opts :=
     skipValidation := getBool j "skipValidation"
     skipDefaultValues := getBool j "skipDefaultValues"
     resolvePaths := getBool j "resolvePaths"
-    skipNormalization := getBool j "skipNormalization" }
+    skipNormalization := getBool j "skipNormalization"
+    skipExtends := !(getBool j "extends") }
 
 def cfgOf (args : Json) : Cfg :=
   { opts := optsOf (getObj args "opts")
@@ -30,7 +31,8 @@ def cfgOf (args : Json) : Cfg :=
     env := getStrMap args "env"
     projectName := getStr args "name"
     clean := CV.C11.pathClean
-    omitPats := (getStrList args "omit").map (fun s => s.splitOn ".") }
+    omitPats := (getStrList args "omit").map (fun s => s.splitOn ".")
+    mainFile := getStr args "mainFile" }
 
 /-- `{"docs":[T(map)…], "opts":{…}, "env":{…}, "name":…, "wd":…, "home":…, "remotes":[…], "omit":[…], "f64":{…}, "f32":{…}}`
     → `{"ok": T}` | `{"err": stage}` | `{"panic": site}` -/
